@@ -33,6 +33,7 @@ PROGRAMS = [
     '7 - 2', '7 + 2', 'x / 0', '1 + ( 2 + ( 3 / 0 ) )', 'a = x ; b = a / 0 ; c = 1', 'q', 'q + 1',
     'min ( x , y )', 'max ( x , y ) ; nosuch ( 1 )', '[ x , y , "s" ]', 'x == y ? "eq" : "ne"', '! ( x < y )',
     'a = 1 ; a += x ; a', 'a = 1 ; a -= x ; a', 'x in [ y , 1 ]', '( ( ( ( x ) ) ) )', '- x ++',
+    'max ( [ 1 , { 2 : ( 3',          # rejected by the parser with four groups open
 ]
 
 
